@@ -317,9 +317,16 @@ Visible(starts, lens, tl) ==
   ELSE IF Head(lens) + tl = 0 THEN Visible(Tail(starts), Tail(lens), tl)
   ELSE << Head(starts) >> \o Visible(Tail(starts), Tail(lens), tl)
 
+(* The joined reader is an io.Reader: when the transport ended with io.EOF exactly at a frame boundary, outside *)
+(* any message, after every message was delivered completely, reporting the plain end of the stream (io.EOF,   *)
+(* which io.ReadAll turns into "no error") truncates nothing.  Anywhere else the end must be an error (C05).   *)
+JACleanEnd(j) ==
+  /\ cfg.fault = "eof" /\ j.w.res = "starve" /\ j.partial = 0 /\ ~j.w.s.frag
+  /\ (IF j.w.s.pos > Len(fr) THEN TRUE ELSE fr[j.w.s.pos].arr = "none")    \* (IF: TLC evaluates both sides of a disjunction inside an action)
+
 JAAllowed(j, tl, n, e, obs, segs, rest, restOK) ==
   IF j.w.res = "wild" THEN TRUE
-  ELSE /\ IsErr(e) /\ ObsOK(j.w, obs) /\ restOK
+  ELSE /\ (IsErr(e) \/ (e.cls = "nil" /\ JACleanEnd(j))) /\ ObsOK(j.w, obs) /\ restOK
        /\ IF j.w.res = "eom" THEN
              \* the last message ended together with the transport fault: it may or may not be included
              \/ SegsOK(Visible(j.starts, j.lens, tl), segs) /\ n = j.total + rest /\ rest <= j.partial
@@ -329,7 +336,7 @@ JAAllowed(j, tl, n, e, obs, segs, rest, restOK) ==
                   \* complete message with the same bytes: the observer may attribute it either way
                   \/ /\ tl = 0 /\ j.partial > 0 /\ rest = 0 /\ n = j.total + j.partial
                      /\ SegsOK(Visible(Append(j.starts, j.s.start), Append(j.lens, j.partial), tl), segs)
-               /\ (j.w.res = "failed" \/ ErrFits(j.w, e))
+               /\ (j.w.res = "failed" \/ ErrFits(j.w, e) \/ (e.cls = "nil" /\ JACleanEnd(j)))
 
 JANext(j, e) == [j.s EXCEPT !.failed = TRUE, !.nrid = e.id, !.rd = "none", !.nerr = j.s.nerr + 1]
 
